@@ -154,6 +154,26 @@ static void verify_all(world_t *w, const unsigned char *imprint, size_t n, int h
 			w->vc.documentHash = NULL;
 			KSI_DataHash_free(oh);
 		}
+		/* (2c) hash and level only in the caller's context (explicit arguments NULL / 0), and (2d) the same context given to
+		 * the parsing helper, which verifies the freshly parsed signature with it */
+		{
+			KSI_Signature *ps = NULL;
+			vbuf sb;
+			w->vc.documentHash = h; w->vc.docAggrLevel = level;
+			rc = KSI_Signature_verifyWithPolicy(w->sig, NULL, 0, w->policy, &w->vc);
+			vf_count("impl_calls", 1);
+			judge(w, "verifyWithPolicy+ctx-only", exp, rc, 0, 0, 0, detail);
+			vb_init(&sb);
+			rs_serialize(&w->model, &sb);
+			w->vc.signature = NULL;
+			rc = KSI_Signature_parseWithPolicy(w->ctx, sb.p, sb.n, w->policy, &w->vc, &ps);
+			vf_count("impl_calls", 1);
+			judge(w, "parseWithPolicy+ctx", exp, rc, 0, 0, 0, detail);
+			if (rc != KSI_OK && ps != NULL) vf_fail("signature-returned-with-error", "KSI_Signature_parseWithPolicy failed with 0x%x but returned a signature", rc);
+			KSI_Signature_free(ps);
+			vb_free(&sb);
+			w->vc.signature = w->sig; w->vc.documentHash = NULL; w->vc.docAggrLevel = 0;
+		}
 		/* (3) helper without a context: only policies that need no anchor from the caller */
 		if (w->pol == P_INTERNAL) {
 			rc = KSI_Signature_verifyWithPolicy(w->sig, h, level, w->policy, NULL);
